@@ -25,6 +25,14 @@ def jobs(tier):
         for mode in ("gapped", "cont", "gapped+gz9+cks"):
             out.append({"cfg": dict(c01._cfg(n, d, fc, sc, k0, mode)), "hists": far_h, "oracles": ["counters", "roundtrip_runs"],
                         "label": "far gap %d/%d %s" % (n, d, mode)})
+    # complex channels (integer and float, one and two subchannels): data also arrive as real-typed interleaved I/Q
+    seqs = U.write_seqs(2, U.L_RED, U.G_RED)
+    for kind, size, nsub in (("i", 2, 1), ("f", 4, 1), ("i", 4, 2)):
+        n, d, fc, sc = U.LAYOUT_RATES[0]
+        k0 = U.start_positions(n, d, fc, sc, U.EPOCHS[1:2])[0][0]
+        for mode in ("gapped", "cont"):
+            out.append({"cfg": dict(c01._cfg(n, d, fc, sc, k0, mode, kind=kind, size=size, cplx=True, nsub=nsub)), "hists": seqs,
+                        "oracles": ["counters"], "label": "complex %s%d x%d %s" % (kind, size, nsub, mode)})
     # histories with rejected calls interleaved, all modes
     rates = U.LAYOUT_RATES[:3] if tier == "quick" else U.LAYOUT_RATES
     bases = c05.base_histories(tier)
